@@ -68,6 +68,7 @@ type Engine struct {
 	timeoutS  int
 	tier      string
 	heapElemType map[string]types.Type
+	sigByKey     map[string]*types.Signature
 }
 
 func loadEngine(repo, verifDir string, pkgPatterns []string) (*Engine, error) {
@@ -75,7 +76,7 @@ func loadEngine(repo, verifDir string, pkgPatterns []string) (*Engine, error) {
 		d: newDecls(modPath), contracts: map[string]*FuncContract{}, ghosts: map[string]*GhostVar{}, ghostPkg: map[string]*packages.Package{},
 		preds: map[string]*PredDef{}, predPkg: map[string]*packages.Package{}, fns: map[string]*SpecFn{}, fnPkg: map[string]*packages.Package{},
 		lemmas: map[string]*Axiom{}, axPkg: map[*Axiom]*packages.Package{}, onwrites: map[string][]*OnWrite{},
-		funcs: map[string]*FuncInfo{}, litKey: map[*ast.FuncLit]string{}, trusted: map[string]bool{}, timeoutS: 10, tier: "quick", heapElemType: map[string]types.Type{}}
+		funcs: map[string]*FuncInfo{}, litKey: map[*ast.FuncLit]string{}, trusted: map[string]bool{}, timeoutS: 10, tier: "quick", heapElemType: map[string]types.Type{}, sigByKey: map[string]*types.Signature{}}
 	cfg := &packages.Config{
 		Mode:       packages.NeedName | packages.NeedFiles | packages.NeedCompiledGoFiles | packages.NeedImports | packages.NeedDeps | packages.NeedTypes | packages.NeedSyntax | packages.NeedTypesInfo | packages.NeedTypesSizes,
 		Dir:        repo,
